@@ -87,6 +87,14 @@ def rlpList1 (n : Nat) (a : List Nat) : List Nat :=
   let item := rlpEncode n a
   (192 + item.length) :: item
 
+/-- a bounded list of items (`RlpStream::new_list(k)` + `append` per element): `0xc0 + len` / `0xf7 + len(len), len`, payload -/
+def rlpListOf (items : List (List Nat)) : List Nat :=
+  let payload := items.foldr (· ++ ·) []
+  if payload.length ≤ 55 then (192 + payload.length) :: payload
+  else
+    let sz := rlpSizeBytes payload.length
+    (247 + sz.length) :: sz ++ payload
+
 /-- L0: the strict decoder property C18 demands — accept exactly the canonical encoding
     (`CB.P18.rlpSpec_ok_iff`), an error on everything else. -/
 def rlpSpecDecode (n : Nat) (bs : List Nat) : Dec :=
